@@ -7,12 +7,30 @@
 package vsqlitex
 
 import (
+	"errors"
+	"strings"
+
 	"crawshaw.io/sqlite"
 	real "crawshaw.io/sqlite/sqlitex"
 	"filippo.io/sunlight/internal/verifmc"
 )
 
+// ErrInjected is returned by a SELECT that the explorer chose to fail.
+var ErrInjected = errors.New("verifmc: injected SQLite failure")
+
+// Exec runs the statement. Where the scheduler asks for it (Sched.SQLReadFaults)
+// a SELECT may fail instead: an environment choice, not a scheduling point (the
+// caller may hold locks).
 func Exec(conn *sqlite.Conn, query string, resultFn func(stmt *sqlite.Stmt) error, args ...interface{}) error {
+	if s := verifmc.Cur; s != nil && s.SQLReadFaults && !s.Draining() && strings.HasPrefix(strings.TrimSpace(query), "SELECT") {
+		label := query
+		if i := strings.Index(label, " WHERE"); i > 0 {
+			label = label[:i]
+		}
+		if s.Choose("outcome sql "+label, []string{"ok", "error"}, nil) == 1 {
+			return ErrInjected
+		}
+	}
 	return real.Exec(conn, query, resultFn, args...)
 }
 
